@@ -28,7 +28,10 @@ impl<'a> ParamParser<'a> {
 
 /// Check that `input` holds a well-formed parameter block for `stmt`, so that iterating over the
 /// parameters later cannot fail.
-pub(crate) fn validate(input: &[u8], stmt: &StatementData) -> std::io::Result<()> {
+///
+/// If the block carries parameter types, they are remembered for later executions that omit them
+/// here, whether or not the shim then looks at the parameters.
+pub(crate) fn validate(input: &[u8], stmt: &mut StatementData) -> std::io::Result<()> {
     use std::io::{Error, ErrorKind::InvalidData};
 
     let params = stmt.params as usize;
@@ -67,6 +70,9 @@ pub(crate) fn validate(input: &[u8], stmt: &StatementData) -> std::io::Result<()
             Value::parse_from(&mut rest, ct, unsigned)
                 .map_err(|e| Error::new(InvalidData, format!("bad parameter value: {}", e)))?;
         }
+    }
+    if new_params_bound {
+        stmt.bound_types = types;
     }
     Ok(())
 }
